@@ -13,6 +13,7 @@
 //	resume W P            continue a parked worker (to the next park point P or to completion)
 //	cat W F               Lookup + Open(Read) + read + Close
 //	rootcat W F           Root directory GetNode(), then read F from that DAG
+//	ls W                  Directory.List of / and /d (names and sizes)
 //	pubcat F              read F from the last node handed to Root.updateChildEntry (the value given to the republisher)
 //	mode W F P            File.Mode(), optionally parking at p = File.Mode:rlocked (between the lock and GetNode)
 //	mtime W F P           File.ModTime(), same
@@ -26,6 +27,7 @@ import (
 	"io"
 	"os"
 	"runtime"
+	"sort"
 	"strconv"
 	"strings"
 	"sync"
@@ -81,6 +83,14 @@ type env struct {
 	pubMu   sync.Mutex
 	pub     ipld.Node
 	stopped bool
+	sig     chan struct{} // poked whenever a worker finishes an op or parks
+}
+
+func (e *env) poke() {
+	select {
+	case e.sig <- struct{}{}:
+	default:
+	}
 }
 
 var cur *env
@@ -108,6 +118,7 @@ func schedHook(point string) {
 	ch := make(chan struct{})
 	w.release = ch
 	w.mu.Unlock()
+	e.poke()
 	<-ch
 }
 
@@ -141,6 +152,7 @@ func (w *worker) loop(e *env, ready chan struct{}) {
 		w.running = false
 		w.result, w.hasRes = r, true
 		w.mu.Unlock()
+		e.poke()
 	}
 }
 
@@ -173,15 +185,14 @@ func lockWait(st string) bool {
 	return strings.HasPrefix(st, "sync.") || st == "semacquire"
 }
 
-// quiesce waits until every worker is idle, parked, or blocked on a lock; returns the per-worker status.
+// quiesce waits until every worker is idle (its op returned), parked at a schedule point, or blocked on a lock
+// (wait reason sync.* in the runtime's goroutine dump); returns the per-worker status.
 func (e *env) quiesce() []string {
 	deadline := time.Now().Add(20 * time.Second)
-	stable := 0
-	var last string
-	for {
+	confirm := 0
+	for spin := 0; ; spin++ {
 		st := make([]string, len(e.ws))
-		busy := false
-		var reasons map[int64]string
+		unsettled := false
 		for i, w := range e.ws {
 			w.mu.Lock()
 			switch {
@@ -190,37 +201,49 @@ func (e *env) quiesce() []string {
 			case w.parked != "":
 				st[i] = "parked"
 			default:
-				if reasons == nil {
-					w.mu.Unlock()
-					reasons = e.waitReasons()
-					w.mu.Lock()
-				}
-				if !w.running {
-					st[i] = "idle"
-				} else if w.parked != "" {
-					st[i] = "parked"
-				} else if lockWait(reasons[w.gid]) {
-					st[i] = "blocked"
-				} else {
-					busy = true
-				}
+				unsettled = true
 			}
 			w.mu.Unlock()
 		}
-		s := strings.Join(st, ",")
-		if !busy && s == last {
-			stable++
-			if stable >= 3 {
+		if !unsettled {
+			return st
+		}
+		if spin < 4 { // give running ops a moment (they poke us) before looking at stacks, which stops the world
+			select {
+			case <-e.sig:
+			case <-time.After(2 * time.Millisecond):
+			}
+			continue
+		}
+		reasons := e.waitReasons()
+		allBlocked := true
+		for i, w := range e.ws {
+			w.mu.Lock()
+			if w.running && w.parked == "" {
+				if lockWait(reasons[w.gid]) {
+					st[i] = "blocked"
+				} else {
+					allBlocked = false
+				}
+			} else if !w.running {
+				st[i] = "idle"
+			} else {
+				st[i] = "parked"
+			}
+			w.mu.Unlock()
+		}
+		if allBlocked {
+			confirm++
+			if confirm >= 3 {
 				return st
 			}
 		} else {
-			stable = 0
+			confirm = 0
 		}
-		last = s
 		if time.Now().After(deadline) {
-			panic("harness: workers did not quiesce: " + s)
+			panic("harness: workers did not quiesce: " + strings.Join(st, ","))
 		}
-		time.Sleep(300 * time.Microsecond)
+		time.Sleep(200 * time.Microsecond)
 	}
 }
 
@@ -255,7 +278,12 @@ func newEnv() *env {
 			panic(err)
 		}
 	}
-	e := &env{root: root, dserv: dserv}
+	// bring every directory's link table up to date (PutNode does not propagate upwards): the model starts from a
+	// tree whose links all show the initial content
+	if _, err := root.GetDirectory().GetNode(); err != nil {
+		panic(err)
+	}
+	e := &env{root: root, dserv: dserv, sig: make(chan struct{}, 64)}
 	for i := 0; i < nWorkers; i++ {
 		w := &worker{id: i, ops: make(chan func() string), fdFile: -1}
 		e.ws = append(e.ws, w)
@@ -366,8 +394,27 @@ func exec(c vh.Case, o *vh.Out) {
 		}
 		return false
 	}
+	pubReported := false
+	syncOf := make([]bool, nWorkers)
+	catCheck := make([]func(got string), nWorkers)
 	modeParked := -1 // worker parked inside Mode/ModTime
 	chmodBlocked := false
+	// monitor bookkeeping (the property's own notions, independent of the model)
+	acked := []string{"0000", "0000", "0000"} // content of the last acknowledged write per file
+	fullAck := []string{"", "", ""}           // content of the last acknowledged write that was flushed up (Flush, or Close with Sync)
+	wrote := make([]string, nWorkers)         // what each worker's descriptor currently holds
+	pend := make([]func(ok bool), nWorkers)   // to run when the worker's current op completes
+	propagating := func() bool {              // some flush is still on its way up
+		for _, w := range e.ws {
+			w.mu.Lock()
+			r := w.running
+			w.mu.Unlock()
+			if r {
+				return true
+			}
+		}
+		return false
+	}
 	for _, line := range c.Ops {
 		f := strings.Fields(line)
 		if deadlocked {
@@ -389,6 +436,7 @@ func exec(c vh.Case, o *vh.Out) {
 				break
 			}
 			flags := mfs.Flags{Read: f[3] == "r", Write: f[3] != "r", Sync: f[3] == "s"}
+			syncOf[w.id] = flags.Sync
 			e.start(w, "", func() string {
 				fd, err := e.file(fi).Open(context.Background(), flags)
 				if err != nil {
@@ -397,6 +445,7 @@ func exec(c vh.Case, o *vh.Out) {
 				w.fd, w.fdFile, w.fdWrite = fd, fi, flags.Write
 				return "ok"
 			})
+			wrote[w.id] = ""
 			o.Kind("open-" + f[3])
 		case "write":
 			w := wIdx(1)
@@ -412,6 +461,7 @@ func exec(c vh.Case, o *vh.Out) {
 				_, err := w.fd.Write(data)
 				return errStr(err)
 			})
+			wrote[w.id] = string(data)
 			o.Kind("write")
 		case "flush", "close":
 			w := wIdx(1)
@@ -420,6 +470,20 @@ func exec(c vh.Case, o *vh.Out) {
 				break
 			}
 			closing := f[0] == "close"
+			{
+				fi, isW, data, full := w.fdFile, w.fdWrite, wrote[w.id], !closing
+				if closing {
+					full = syncOf[w.id]
+				}
+				pend[w.id] = func(ok bool) {
+					if ok && isW && data != "" {
+						acked[fi] = data
+						if full {
+							fullAck[fi] = data
+						}
+					}
+				}
+			}
 			e.start(w, parkPoints[f[2]], func() string {
 				var err error
 				if closing {
@@ -438,9 +502,6 @@ func exec(c vh.Case, o *vh.Out) {
 				w.mu.Unlock()
 				res = "refused"
 				break
-			}
-			if strings.HasPrefix(w.parked, "File.Mod") {
-				modeParked = -1
 			}
 			w.parked, w.parkAt = "", parkPoints[f[2]]
 			close(w.release)
@@ -461,6 +522,15 @@ func exec(c vh.Case, o *vh.Out) {
 				fd.Close()
 				return tok(b)
 			})
+			{
+				want := acked[fi]
+				catCheck[w.id] = func(got string) {
+					if got != want {
+						o.Fail("read-misses-ack", "cat %s = %s but the last acknowledged write (Flush/Close returned) is %s", paths[fi], got, want)
+					}
+					o.Nontrivial()
+				}
+			}
 			o.Kind("cat")
 		case "rootcat":
 			w, fi := wIdx(1), vh.Atoi(f[2])
@@ -475,7 +545,47 @@ func exec(c vh.Case, o *vh.Out) {
 				}
 				return e.readFrom(nd, fi)
 			})
+			{
+				want, inflight := acked[fi], ""
+				for _, w2 := range e.ws {
+					if w2.fd != nil && w2.fdFile == fi && w2.fdWrite {
+						inflight = wrote[w2.id] // a flush of this file may be in progress: its content may already be visible
+					}
+				}
+				catCheck[w.id] = func(got string) {
+					if got != want && (inflight == "" || got != inflight) {
+						o.Fail("root-misses-ack", "flushed root shows %s = %s but the last acknowledged write is %s", paths[fi], got, want)
+					}
+				}
+			}
 			o.Kind("rootcat")
+		case "ls":
+			w := wIdx(1)
+			if busyW(w) || modeParked >= 0 {
+				res = "refused"
+				break
+			}
+			e.start(w, "", func() string {
+				var parts []string
+				for _, p := range []string{"/", "/d"} {
+					n, err := mfs.Lookup(e.root, p)
+					if err != nil {
+						return "err"
+					}
+					ents, err := n.(*mfs.Directory).List(context.Background())
+					if err != nil {
+						return "err"
+					}
+					var names []string
+					for _, en := range ents {
+						names = append(names, fmt.Sprintf("%s:%d", en.Name, en.Size))
+					}
+					sort.Strings(names)
+					parts = append(parts, strings.Join(names, ","))
+				}
+				return strings.Join(parts, ";")
+			})
+			o.Kind("ls")
 		case "pubcat":
 			e.pubMu.Lock()
 			nd := e.pub
@@ -493,9 +603,6 @@ func exec(c vh.Case, o *vh.Out) {
 				break
 			}
 			pk := parkPoints[f[3]]
-			if pk != "" {
-				modeParked = w.id
-			}
 			isMode := f[0] == "mode"
 			e.start(w, pk, func() string {
 				if isMode {
@@ -516,6 +623,11 @@ func exec(c vh.Case, o *vh.Out) {
 				break
 			}
 			m, _ := strconv.ParseUint(f[3], 8, 32)
+			pend[w.id] = func(ok bool) {
+				if ok {
+					fullAck[fi] = acked[fi]
+				}
+			}
 			e.start(w, "", func() string { return errStr(e.file(fi).SetMode(os.FileMode(m))) })
 			o.Kind("chmod")
 		default:
@@ -538,13 +650,46 @@ func exec(c vh.Case, o *vh.Out) {
 			} else if w.hasRes {
 				s = "done:" + w.result
 				w.hasRes = false
+				if pend[i] != nil {
+					pend[i](w.result == "ok")
+					pend[i] = nil
+				}
+				if chk := catCheck[i]; chk != nil {
+					chk(w.result)
+					catCheck[i] = nil
+				}
 			}
 			w.mu.Unlock()
 			parts = append(parts, fmt.Sprintf("w%d=%s", i, s))
 		}
 		chmodBlocked = nBlocked > 0
+		modeParked = -1
+		for _, w := range e.ws {
+			w.mu.Lock()
+			if w.running && strings.HasPrefix(w.parked, "File.Mod") {
+				modeParked = w.id
+			}
+			w.mu.Unlock()
+		}
 		if res == "" {
 			res = "started"
+		}
+		// monitor: when no flush is on its way up, the node last handed to Root.updateChildEntry (the republisher's input)
+		// shows every write that was acknowledged by a flush that propagates (Flush, Close of a Sync descriptor)
+		if !propagating() {
+			e.pubMu.Lock()
+			pub := e.pub
+			e.pubMu.Unlock()
+			if pub != nil {
+				for fi := range paths {
+					if fullAck[fi] != "" && fullAck[fi] == acked[fi] {
+						if got := e.readFrom(pub, fi); got != fullAck[fi] && !pubReported {
+							pubReported = true
+							o.Fail("published-root-regress", "the node given to the republisher shows %s = %s but %s was flushed and acknowledged", paths[fi], got, fullAck[fi])
+						}
+					}
+				}
+			}
 		}
 		// monitor: a goroutine waits for a lock inside mfs and nothing can ever release it
 		if nBlocked > 0 && nParked == 0 {
